@@ -403,13 +403,13 @@ impl Snap {
                 self.cx, self.cy, other.cx, other.cy
             ));
         }
-        if self.attr != other.attr {
+        if !sk("attr") && self.attr != other.attr {
             return Some(format!("rendition {} vs {}", self.attr.short(), other.attr.short()));
         }
-        if self.hidden != other.hidden {
+        if !sk("hidden") && self.hidden != other.hidden {
             return Some(format!("cursor.hidden {} vs {}", self.hidden, other.hidden));
         }
-        if self.modes != other.modes {
+        if !sk("modes") && self.modes != other.modes {
             return Some(format!("modes {:?} vs {:?}", self.modes, other.modes));
         }
         if !sk("tabs") && self.tabs != other.tabs {
@@ -418,16 +418,16 @@ impl Snap {
         if !sk("dirty") && self.dirty != other.dirty {
             return Some(format!("dirty {:?} vs {:?}", self.dirty, other.dirty));
         }
-        if self.margins != other.margins {
+        if !sk("margins") && self.margins != other.margins {
             return Some(format!("margins {:?} vs {:?}", self.margins, other.margins));
         }
-        if self.title != other.title {
+        if !sk("title") && self.title != other.title {
             return Some(format!("title {:?} vs {:?}", self.title, other.title));
         }
-        if self.icon != other.icon {
+        if !sk("title") && self.icon != other.icon {
             return Some(format!("icon_name {:?} vs {:?}", self.icon, other.icon));
         }
-        if self.g1_active != other.g1_active || self.g0 != other.g0 || self.g1 != other.g1 {
+        if !sk("charset") && (self.g1_active != other.g1_active || self.g0 != other.g0 || self.g1 != other.g1) {
             return Some(format!(
                 "charset (g1_active={},g0={:?},g1={:?}) vs (g1_active={},g0={:?},g1={:?})",
                 self.g1_active, self.g0, self.g1, other.g1_active, other.g0, other.g1
@@ -444,7 +444,7 @@ impl Snap {
                 other.saves.len()
             ));
         }
-        if self.saved_columns != other.saved_columns {
+        if !sk("savedcols") && self.saved_columns != other.saved_columns {
             return Some(format!(
                 "saved_columns {:?} vs {:?}",
                 self.saved_columns, other.saved_columns
